@@ -146,3 +146,12 @@ def strip_refs(t):
             t = t2[1:]
         else:
             return t2
+
+
+def pname(fn, idx):
+    """Current source name of parameter `idx` of fn (self counts as 0): rules refer to parameters by position, never by name."""
+    try:
+        bs = fb.pat_bindings(fn.params[idx]["pat"])
+        return bs[0][0] if bs else "?"
+    except (IndexError, KeyError):
+        return "?"
